@@ -269,6 +269,10 @@ func (r *run) rec(op map[string]any, ln *Line) {
 	if wrapOn {
 		opts = append(opts, nodeenrollment.WithStorageWrapper(w.Wrappers["SW"]))
 	}
+	if ws, _ := op["withState"].(bool); ws {
+		// an application that also passes state along with the wrapper
+		opts = append(opts, nodeenrollment.WithState(w.States["s1"]))
+	}
 	other = append(other, nodeenrollment.WithStorageWrapper(w.Wrappers["SX"]))
 	ln.Obs.Form = map[string]string{}
 	rb := func(n int) []byte { b := make([]byte, n); rand.Read(b); return b }
@@ -380,12 +384,38 @@ func (r *run) rec(op map[string]any, ln *Line) {
 		ln.Obs.LoadOther = classify(e3, false)
 		rawB := &types.NodeCredentials{Id: b.Id}
 		_ = inner.Load(ctx, rawB)
+		saved := proto.Clone(raw).(*types.NodeCredentials)
 		raw.EncryptionPrivateKeyBytes = rawB.EncryptionPrivateKeyBytes
 		_ = inner.Store(ctx, raw)
 		_, e4 := types.LoadNodeCredentials(ctx, st, nodeenrollment.CurrentId, opts...)
 		ln.Obs.Transplant = classify(e4, false)
 		if e4 == nil {
 			ln.Obs.Transplant = "opened"
+		}
+		// a sibling filed under the SAME id ("current") in another node's storage
+		inner2, _ := inmem.New(ctx)
+		c2 := mk("k3", nodeenrollment.CurrentId)
+		if err := c2.Store(ctx, inner2, opts...); err == nil && wrapOn {
+			rawC := &types.NodeCredentials{Id: c2.Id}
+			_ = inner2.Load(ctx, rawC)
+			for _, field := range []string{"cert", "enc", "nonce"} {
+				t2 := proto.Clone(saved).(*types.NodeCredentials)
+				switch field {
+				case "cert":
+					t2.CertificatePrivateKeyPkcs8 = rawC.CertificatePrivateKeyPkcs8
+				case "enc":
+					t2.EncryptionPrivateKeyBytes = rawC.EncryptionPrivateKeyBytes
+				case "nonce":
+					if len(rawC.RegistrationNonce) == 0 || len(t2.RegistrationNonce) == 0 {
+						continue
+					}
+					t2.RegistrationNonce = rawC.RegistrationNonce
+				}
+				_ = inner.Store(ctx, t2)
+				if _, e5 := types.LoadNodeCredentials(ctx, st, nodeenrollment.CurrentId, opts...); e5 == nil {
+					ln.Obs.Transplant = "opened"
+				}
+			}
 		}
 	case "token":
 		mk := func(id string) *types.ServerLedActivationToken {
@@ -435,6 +465,9 @@ func (r *run) flow(op map[string]any, ln *Line) {
 	name := str(op, "name")
 	ctx := w.Ctx
 	sopts := []nodeenrollment.Option{nodeenrollment.WithStorageWrapper(w.Wrappers["SW"])}
+	if ws, _ := op["withState"].(bool); ws {
+		sopts = append(sopts, nodeenrollment.WithState(w.States["s1"]))
+	}
 	srvInner, _ := inmem.New(ctx)
 	srvRec := world.NewRecStorage(srvInner, false)
 	srv := srvRec.AsStorage()
